@@ -26,6 +26,7 @@ type LoopSpec struct {
 	Invs     []*Clause
 	Modifies []string // extra heap arrays to havoc, rarely needed
 	Splits   []*Split
+	BackEdge []*Clause // proved on every back edge (with the locals of the iteration), never assumed
 }
 
 // Split partitions the preservation obligations of the named invariants into cells.
@@ -66,6 +67,7 @@ type Contract struct {
 	Ghostsets []GhostSet // ghost assignments executed at every return (ghost code kept in the contract)
 	Before   map[string][]*Clause // call-site assertions keyed by callee, evaluated with the locals visible at the call
 	Joins    []JoinSpec // channel hand-off from a spawned closure (see DESIGN.md 2.3 "Closures and go")
+	RecvObl  map[int][]*Clause // obligations at the N-th channel receive (SSA order): $ch is the channel, locals visible
 	OnRecv   []*Clause // ASSUMED of every error value received from a channel in this function ($v); listed as assumption
 }
 
@@ -230,7 +232,7 @@ func (db *SpecDB) loadSpecFile(path string, prefix string) error {
 		lines = append(lines, lineT{strings.TrimSpace(t), i + 1})
 	}
 	// join continuation lines: a line that does not start with a directive keyword continues the previous one
-	kw := regexp.MustCompile(`^(contract|stub|rec func|func|ufunc|ghost field|const|axiom|lemma|owner|prop|requires|ensures|invariant|modifies|fresh|loop|trusted|maypanic|pure|nooverflow|inline|thread|use|by induction|ghostset|also|split|before|onrecv|join)\b`)
+	kw := regexp.MustCompile(`^(contract|stub|rec func|func|ufunc|ghost field|const|axiom|lemma|owner|prop|requires|ensures|invariant|modifies|fresh|loop|trusted|maypanic|pure|nooverflow|inline|thread|use|by induction|ghostset|also|split|before|onrecv|join|recv|backedge)\b`)
 	var joined []lineT
 	for _, l := range lines {
 		if kw.MatchString(l.text) || len(joined) == 0 {
@@ -453,6 +455,60 @@ func (db *SpecDB) loadSpecFile(path string, prefix string) error {
 				return fail(l, "join <chan local>: <closure contract>")
 			}
 			cur.Joins = append(cur.Joins, JoinSpec{ChanLocal: strings.TrimSpace(fs[0]), Closure: strings.TrimSpace(fs[1])})
+		case strings.HasPrefix(t, "backedge "):
+			if curLoop == nil {
+				return fail(l, "backedge outside loop")
+			}
+			m := reClauseHead.FindStringSubmatch("requires " + strings.TrimSpace(strings.TrimPrefix(t, "backedge ")))
+			if m == nil {
+				return fail(l, "bad backedge clause")
+			}
+			cl := &Clause{Kind: "backedge", Src: m[4], File: path, Line: l.no}
+			if m[2] != "" {
+				cl.Props = strings.Split(strings.TrimPrefix(strings.TrimSpace(m[2]), "@"), ",")
+			}
+			if m[3] != "" {
+				cl.Label = strings.TrimSuffix(strings.TrimSpace(m[3]), ":")
+			}
+			e, err := parseExpr(m[4])
+			if err != nil {
+				return fail(l, "%v", err)
+			}
+			cl.E = stripParens(e)
+			curLoop.BackEdge = append(curLoop.BackEdge, cl)
+		case strings.HasPrefix(t, "recv "):
+			if cur == nil {
+				return fail(l, "recv outside contract")
+			}
+			rest := strings.TrimPrefix(t, "recv ")
+			i := strings.Index(rest, ": ")
+			if i < 0 {
+				return fail(l, "recv N: [@props] [label:] expr")
+			}
+			n, err := strconv.Atoi(strings.TrimSpace(rest[:i]))
+			if err != nil {
+				return fail(l, "bad receive ordinal")
+			}
+			m := reClauseHead.FindStringSubmatch("requires " + strings.TrimSpace(rest[i+2:]))
+			if m == nil {
+				return fail(l, "bad recv clause")
+			}
+			cl := &Clause{Kind: "recv", Src: m[4], File: path, Line: l.no}
+			if m[2] != "" {
+				cl.Props = strings.Split(strings.TrimPrefix(strings.TrimSpace(m[2]), "@"), ",")
+			}
+			if m[3] != "" {
+				cl.Label = strings.TrimSuffix(strings.TrimSpace(m[3]), ":")
+			}
+			e, err := parseExpr(m[4])
+			if err != nil {
+				return fail(l, "%v", err)
+			}
+			cl.E = stripParens(e)
+			if cur.RecvObl == nil {
+				cur.RecvObl = map[int][]*Clause{}
+			}
+			cur.RecvObl[n] = append(cur.RecvObl[n], cl)
 		case strings.HasPrefix(t, "onrecv "):
 			if cur == nil {
 				return fail(l, "onrecv outside contract")
